@@ -596,6 +596,11 @@ match self.rng.below(8) {
         if self.pct(4) {
             return self.rng.pick(&["", " ", "admin", "none"]).to_string();
         }
+        if self.pct(3) {
+            // another spelling of a user's address is another signer (an account of its own, without coins)
+            let u = self.rng.pick(&self.users).clone();
+            return if self.pct(70) { u.to_uppercase() } else { format!("{} ", u) };
+        }
         if self.pct(8) {
             if let Some(c) = m.st.contracts.keys().next() {
                 return c.clone();
